@@ -534,7 +534,28 @@ def list_method(eng, o, name, args, kwargs, st, fr, k):
             eng.list_set_all(st, o, ln, arr, jn)
             return k(st, SNone())
         if isinstance(x, SDyn):
-            return eng.extend_dyn(o, x, st, fr, k)
+            # extend with a dynamic list / tuple object: element-wise; into a list of objects only objects may go
+            seq = z3.And(PyVal.is_RefV(x.t), z3.Or([eng.cls_term(st, PyVal.rval(x.t)) == eng.class_ids[c] for c in ("list", "tuple")]))
+            eng.oblige(st, "type", "extend-arg-sequence", seq, "list.extend with a dynamic value that is not known to be a list or tuple")
+            st.assume(seq)
+            xs = SRef(PyVal.rval(x.t), "list:any")
+            m = eng.list_len(st, xs)
+            ex = eng.list_elems(st, xs)
+            j = z3.Int("j!exd")
+            arr = fresh("ext", z3.ArraySort(IntS, FAM_SORT[fam]))
+            st.assume(z3.ForAll([j], z3.Implies(z3.And(0 <= j, j < n), z3.Select(arr, j) == z3.Select(el, j))))
+            if fam == "ref":
+                allobj = z3.ForAll([j], z3.Implies(z3.And(0 <= j, j < m), PyVal.is_RefV(z3.Select(ex, j))))
+                eng.oblige(st, "type", "extend-elements-objects", allobj, "a non-object would be stored in a list of objects")
+                st.assume(allobj)
+                # the quantified variable is the direct index of the new array (E-matching cannot invert n + j)
+                st.assume(z3.ForAll([j], z3.Implies(z3.And(n <= j, j < n + m), z3.Select(arr, j) == PyVal.rval(z3.Select(ex, j - n)))))
+            elif fam == "any":
+                st.assume(z3.ForAll([j], z3.Implies(z3.And(n <= j, j < n + m), z3.Select(arr, j) == z3.Select(ex, j - n))))
+            else:
+                raise _err("extend of a typed scalar list with a dynamic value")
+            eng.list_set_all(st, o, n + m, arr)
+            return k(st, SNone())
     if name == "insert":
         i, x = args
         it = bm.as_int(i)
